@@ -746,7 +746,7 @@ struct VmWorld : HookSink {
       return;
     }
     if (!cr.generated_correctly) {
-      ctx.stats.inc(proj.has_ast && (rp.valid || proj.ast.dup_params) ? "rejected_valid" : "rejected");
+      ctx.stats.inc(proj.has_ast && rp.valid ? "rejected_valid" : "rejected");
       if (ctx.trace) for (auto &e : cr.errors) ctx.evs("error", e.file + ":" + std::to_string(e.line) + " " + e.message);
       return;
     }
@@ -767,6 +767,7 @@ struct VmWorld : HookSink {
     if (ctx.focus == "C01" && have_ref && ref.finished) budget = std::max<size_t>(budget, (size_t)std::min<long long>(32 * ref.steps + 1001, 400000));
     if (ctx.focus == "C16" && have_ref && ref.finished && !uses_while_goto(proj.ast)) budget = std::max<size_t>(budget, (size_t)std::min<long long>(32 * ref.steps + 1001, 400000));
     build_golden(budget);
+    if (knob("enum_reset", 0)) out.more_subs = plan.sub < (long long)G.steps() && plan.sub < knob("enum_limit", 300);
     if (G.unsafe) return;
     run_session();
     // non-triviality: the session executed something and used the debugger or reached the end
